@@ -108,6 +108,13 @@ var props = map[string]propMeta{
 		Probes:      []string{"closer_never-connected", "closer_dialing", "closer_awaiting-connack", "closer_resending", "closer_online", "closer_online-writer-in-flight", "closer_offline", "closer_already-closed", "post_close_probe", "exchange_got_errclosed", "disconnect_succeeded"},
 		QuickS:      25, ThoroughS: 400,
 	},
+	"C13": {
+		Level: "exploration",
+		Rule: "seeded runs of the general flow (0-2 publishers, requesters, inbound traffic, small read buffers) in which the broker's stream turns hostile 1-4 times: a violation built from a catalogue against the client's current state (reserved and client-only types, five-byte remaining length, zero and foreign identifiers, out-of-order and unsolicited acknowledgements, inconsistent lengths, illegal SUBACK codes, QoS 3, second CONNACK), random bytes, a single-bit mutation of a valid packet, or a stall in the middle of a packet; the handshake reply is replaced likewise (wrong header, reserved flags, session-present on clean, random bytes, refusal, stall). Oracles: no panic (API calls recover; a crash of the process on a library goroutine is reported with its run as replay), every catalogue violation that the client read completely resets the connection with a ReadSlices error, a stall mid-packet ends within PauseTimeout (ReadSlices, ReadAll, handshake), a completion needs its acknowledgement in the input, in order, for a PUBLISH that was written. Mutation and random input is input sampling (coverage guidance is another technique and is not used)." + distinctRule + " non-trivial = a catalogue violation reset the connection or a stall timed out",
+		Assumptions: flowAssumptions,
+		Probes:      []string{"violation_reset", "stall_timed_out", "hostile_random-bytes", "hostile_stall-mid-packet", "hostile_handshake-stall", "hostile_length-over-four-bytes", "hostile_second-CONNACK"},
+		QuickS:      20, ThoroughS: 300,
+	},
 	"C14": {
 		Level: "exploration",
 		Rule: "seeded runs of every request method against every client state reached by the fault mix, with quit timing drawn; oracle over every API return: documented class per method, not-submitted classes leave no byte of the request's unique marker on any connection, quit classes only after quit, rejected persisted publishes never transmitted." + distinctRule + " non-trivial = a fault fired and a limbo or not-submitted class was returned",
